@@ -11,6 +11,7 @@ from sim import shrink as shrinkmod
 from sim.chooser import Chooser, derive_seed
 from sim.gen import project_outputs, render
 from sim.runner import Result, load_known
+from sim.monitors import StaleChildMonitor
 from sim.universe import Universe, scratch_base, tree_snapshot
 from sim.world import SOCKET_PATH
 
@@ -108,6 +109,8 @@ class Session:
         self.aborted = None
         self.error = None
         self.pending_restore = []
+        self.detached_output_events = []
+        self.detached_now = set()
 
     def count(self, k, n=1):
         self.stats[k] = self.stats.get(k, 0) + n
@@ -151,10 +154,13 @@ class Session:
             text = open(os.path.join(root, p)).read()
             self.pending_restore.append(("raw_write", p, text))
             return [("raw_remove", p)]
-        if kind == "rm_output" and built:
-            return [("raw_remove", _pick(built, pick))]
-        if kind == "clobber_output" and built:
-            return [("raw_write", _pick(built, pick), f"clobbered {pick}\n")]
+        if kind in ("rm_output", "clobber_output") and built:
+            p = _pick(built, pick)
+            if p in self.detached_now and "event_while_detached" in self.sc.get("masks", ()):
+                return []
+            if kind == "rm_output":
+                return [("raw_remove", p)]
+            return [("raw_write", p, f"clobbered {pick}\n")]
         if kind == "chmod_flip" and srcs:
             p = _pick(srcs, pick)
             mode = os.stat(os.path.join(root, p)).st_mode & 0o777
@@ -194,6 +200,14 @@ class Session:
                 if op[1]:
                     await asyncio.sleep(op[1])
                 continue
+            for arg in op[1:3]:
+                if isinstance(arg, str):
+                    hit = [p for p in self.detached_now if p == arg or p.startswith(arg.rstrip("/") + "/")]
+                    if hit and os.path.lexists(os.path.join(uni.root, arg)):
+                        # The user touches a path whose node is detached right now (its
+                        # declaring plan failed in the preceding build): known finding F20.
+                        self.detached_output_events.extend(hit[:3])
+                        self.count("event_while_detached")
             if op[0] == "touch_same":
                 cwd = os.getcwd()
                 os.chdir(uni.root)
@@ -248,6 +262,7 @@ class Session:
             for k in range(1, len(phases)):
                 ph = phases[k]
                 log0 = len(world.log)
+                self.detached_now = {key[5:] for key in self.uni.projection()["detached"] if key.startswith("file:")}
                 ops, want = self.uni.user_ops_for(ph["project"])
                 if early_next is not None:
                     ops = [op for op in ops if op not in early_next]
@@ -292,9 +307,14 @@ class Session:
                 if perturbed:
                     self.count("rebuilds_not_compared_edit_during_build")
                     shutil.rmtree(fork_root, ignore_errors=True)
+                elif self.detached_output_events and "event_while_detached" in sc.get("masks", ()):
+                    self.count("rebuilds_not_compared_event_while_detached")
+                    shutil.rmtree(fork_root, ignore_errors=True)
                 else:
                     new_dirs = sorted({ev[5] for ev in world.log[log0:] if ev[2] == "fs" and ev[3] == "user" and ev[4] == "mkdir"})
-                    self.forks.append((k, fork_root, self.observe(world), ncmd, nrecorded, new_dirs))
+                    stale = any(ev[2] == "stale_child" for ev in world.log[log0:])
+                    self.forks.append((k, fork_root, self.observe(world), ncmd, nrecorded,
+                                       (new_dirs, stale, list(self.detached_output_events))))
             await client("shutdown")
         except BaseException as exc:  # noqa: BLE001
             import traceback
@@ -313,11 +333,13 @@ class Session:
 
 def compare(watch_state, fork_state):
     diffs = []
-    if watch_state["rc"] != fork_state["rc"]:
+    if (watch_state["rc"] == 0) != (fork_state["rc"] == 0):
         diffs.append(f"returncode: watch={watch_state['rc']} restart={fork_state['rc']}")
     if fork_state["rc"] != 0:
-        # an incomplete build stops at a schedule-dependent point (C02 only promises equal
-        # graphs for successful builds): only the verdict is comparable
+        # An incomplete build stops at a schedule-dependent point (C02 only promises equal
+        # graphs for successful builds), and even its flags depend on the schedule: a failed
+        # sub-plan that its re-running parent recycles afterwards is PENDING, not FAILED, at
+        # the end (DRAINED versus DRAINED|FAILED).  Only "complete or not" is comparable.
         return diffs
     ta, tb = watch_state["tree"], fork_state["tree"]
     for p in sorted(set(ta) | set(tb)):
@@ -325,7 +347,11 @@ def compare(watch_state, fork_state):
             diffs.append(f"tree {p}: watch={ta.get(p)} restart={tb.get(p)}")
             if len(diffs) > 8:
                 break
-    diffs.extend("graph " + d for d in dbview.diff_projections(watch_state["proj"], fork_state["proj"]))
+    # like C01/C05: memories (detached sinks, stored-hash flag and amended information of steps
+    # that are not SUCCEEDED) depend on the schedule of either universe and are not compared
+    pa = history.strip_for_twin(watch_state["proj"])
+    pb = history.strip_for_twin(fork_state["proj"])
+    diffs.extend("graph " + d for d in dbview.diff_projections(pa, pb))
     return diffs
 
 
@@ -345,7 +371,7 @@ def run_scenario(sc) -> Result:
     root = os.path.join(base, f"{sc['seed']}-W")
     sched = sc["schedule"]
     ch = Chooser(sched["seed"], mode=sched.get("mode", "seeded"), profile=sched.get("profile"))
-    uni = Universe(root, ch, name="W")
+    uni = Universe(root, ch, name="W", monitors=[StaleChildMonitor()])
     w = uni.world
     uni.sync_tree(sc["phases"][0]["project"])
     session = Session(sc, uni, base)
@@ -371,9 +397,9 @@ def run_scenario(sc) -> Result:
         if session.aborted:
             res.discard = session.aborted
             return res
-        for k, fork_root, watch_state, ncmd, nrec, new_dirs in session.forks:
+        for k, fork_root, watch_state, ncmd, nrec, (new_dirs, stale_w, det_out) in session.forks:
             chf = Chooser(derive_seed(sched["seed"], "fork", k), mode=sched.get("mode", "seeded"), profile=sched.get("profile"))
-            fu = Universe(fork_root, chf, name=f"F{k}")
+            fu = Universe(fork_root, chf, name=f"F{k}", monitors=[StaleChildMonitor()])
             fcfg = dict(sc["cfg"])
             fr = fu.build(fcfg)
             if fr.harness_error is not None:
@@ -392,7 +418,8 @@ def run_scenario(sc) -> Result:
             if diffs:
                 edits = sc["phases"][k]["edits"], [x["kind"] for x in sc["phases"][k]["raw"]]
                 res.violate("T-restart", classify(diffs), f"rebuild {k} (edits {edits}) differs from a restart: " + "; ".join(diffs[:6]),
-                            key_for(diffs, sc, k, fstate, watch_state, new_dirs))
+                            key_for(diffs, sc, k, fstate, watch_state, new_dirs,
+                                    stale_w or any(ev[2] == "stale_child" for ev in fu.world.log), det_out))
                 break
         res.sample = {"seed": sc["seed"], "features": sc["features"], "phases": [
             {"edits": ph["edits"], "raw": [x["kind"] for x in ph["raw"]], "early": ph["early"]} for ph in sc["phases"]],
@@ -404,7 +431,7 @@ def run_scenario(sc) -> Result:
     return res
 
 
-def key_for(diffs, sc, k, fork_state=None, watch_state=None, new_dirs=()):
+def key_for(diffs, sc, k, fork_state=None, watch_state=None, new_dirs=(), stale=False, det_out=()):
     """Structural class of a difference."""
     cls = classify(diffs)
     from checks.c01 import _only_inp_digest
@@ -419,6 +446,13 @@ def key_for(diffs, sc, k, fork_state=None, watch_state=None, new_dirs=()):
         only_watch = [n for n in watch_state["proj"]["nodes"] if n not in fork_state["proj"]["nodes"]]
         if inside and not only_watch:
             return "missed-file-in-directory-created-while-watching"
+    if det_out:
+        # known finding F20: the user changed a path while its node was detached
+        return "path-changed-while-its-node-was-detached"
+    if stale:
+        # known finding F5: in one of the two universes a step ran (or kept running) while its
+        # re-running creator dropped or recycled it
+        return cls + ":stale-child-of-rerunning-plan"
     return cls
 
 
